@@ -254,6 +254,31 @@ def gen_parser():
            "end Generated", ""]
     return "\n".join(out)
 
+def gen_grammar():
+    """tokens and productions of grammar.y"""
+    src = read("grammar.y")
+    src = re.sub(r"/\*.*?\*/", " ", src, flags=re.S)
+    tokens = re.findall(r"%token\s+(\w+)", src)
+    body = src.split("%%")[1]
+    heads = list(re.finditer(r"(?m)^(\w+)\s*:", body))
+    prods = []
+    for k, m in enumerate(heads):
+        end = heads[k + 1].start() if k + 1 < len(heads) else len(body)
+        rhs = body[m.end():end].strip().rstrip(";").strip()
+        for alt in rhs.split("|"):
+            syms = [x for x in alt.split() if x != "%empty"]
+            prods.append((m.group(1), syms))
+    if not tokens or not prods: fail("grammar.y: no tokens or productions found")
+    out = ["/-! GENERATED by extract/extract.py from /repo/grammar.y — do not edit. -/", "",
+           "namespace Generated", "",
+           "/-- the `%token` declarations -/",
+           "def grammarTerminals : List String := [" + ", ".join(f'"{t}"' for t in tokens) + "]", "",
+           "/-- the productions, in file order: (left-hand side, right-hand side) -/",
+           "def grammarProductions : List (String × List String) := [",
+           ",\n".join('  ("%s", [%s])' % (a, ", ".join(f'"{x}"' for x in b)) for a, b in prods), "]", "",
+           "end Generated", ""]
+    return "\n".join(out)
+
 def write(name, text):
     os.makedirs(OUT, exist_ok=True)
     p = os.path.join(OUT, name)
@@ -264,6 +289,6 @@ def write(name, text):
 
 if __name__ == "__main__":
     ch = []
-    for name, gen in (("Tokenizer.lean", gen_tokenizer), ("Terms.lean", gen_terms), ("Sites.lean", gen_sites), ("ParserShape.lean", gen_parser)):
+    for name, gen in (("Tokenizer.lean", gen_tokenizer), ("Terms.lean", gen_terms), ("Sites.lean", gen_sites), ("ParserShape.lean", gen_parser), ("Grammar.lean", gen_grammar)):
         if write(name, gen()): ch.append(name)
     print("extract: ok" + (" (rewrote " + ", ".join(ch) + ")" if ch else " (unchanged)"))
